@@ -195,6 +195,8 @@ let dispatch op args = match op, args with
       let ((m, s), safe) = heap_run (List.map hop ops) in
       L [outs m; outs s; I (if safe then Zpos XH else Z0)]
   | "dc_new", [o] -> let f = function Refused -> N | Ok n -> vz n in L [f (dc_new (zll o)); f (dc_new_spec (zll o))]
+  | "dc_astype", [o; keep] ->
+      let (m, sp) = dc_astype (zll o) (zl keep) in L [vrows m; vrows sp]
   | "dc_select", [o; r] ->
       let s = (match rsel r with RMany s -> s | _ -> failwith "rows") in
       L [vrows (dc_select (zll o) s); vrows (dc_select_spec (zll o) s)]
